@@ -136,7 +136,8 @@ class History:
             # mutable metadata values from the start (a list of cuts, a nested dict as parsed from JSON)
             with attach.quiet():
                 # (also under a key that is the name of a constructor argument: such entries travel on a path of their own)
-                h.meta_data[rng.choice(["cuts", "missed"])] = [1, 2] if rng.random() < 0.5 else {"a": [1]}
+                # ("anything can be put in": also mutable values no JSON document could hold - an array of calibration constants, a set of tags)
+                h.meta_data[rng.choice(["cuts", "missed"])] = rng.choice([lambda: [1, 2], lambda: {"a": [1]}, lambda: [1, 2], lambda: {"a": [1]}, lambda: np.array([1.5, 2.5]), lambda: {"raw", "v1"}])()
         self.add(h)
         self.note(f"create {kind} -> {type(h).__name__}{h.shape}:{h.dtype}")
         return h
@@ -402,12 +403,16 @@ class History:
                     # a mutable metadata value (a list of cuts, a dict as parsed from JSON), later edited in place
                     def edit_mutable():
                         cur = h.meta_data.get("cuts")
-                        if not isinstance(cur, (list, dict)):
+                        if not isinstance(cur, (list, dict, set, np.ndarray)):
                             cur = h.meta_data.get("missed", cur)
                         if isinstance(cur, list):
                             cur.append(rng.randint(0, 99))
                         elif isinstance(cur, dict):
                             cur["k%d" % rng.randint(0, 9)] = rng.randint(0, 99)
+                        elif isinstance(cur, set):
+                            cur.add("t%d" % rng.randint(0, 99))
+                        elif isinstance(cur, np.ndarray):
+                            cur[0] += 1.0
                         else:
                             h.meta_data["cuts"] = [1, 2] if which == 4 else {"a": [1]}
                     self.direct(h, edit_mutable, "meta_data[...] edited in place")
